@@ -167,7 +167,52 @@ def build():
                    may_raise=["ASTXpathDefinitionError"] if variant else [],
                    ensures=[f"result == xp_findall({X}, self)"]))
     find_all_body(world, lib, reg, nv, EL, NI, XP, elem_ok)
+    # ---- ASTXpath.match: membership test, then the bottom-up matcher over the reversed element list -------------------
+    elems_rev = z3.Function("xp_elements_reversed", XP.z3(), SE.z3())
+    tree_of = z3.Function("tree_of_root", REF.z3(), TREE.z3())
+    sf["xp_elements_reversed"] = lambda x: SE.wrap(elems_rev(x.term))
+    sf["tree_of_root"] = lambda r: TREE.wrap(tree_of(nv.ref(r)))
+
+    def attr_m(m, obj, name):
+        from pyvc.values import VBound
+        if isinstance(obj, VU) and obj.sort == XP and name == "_elements_reversed":
+            return SE.wrap(elems_rev(obj.term))
+        if isinstance(obj, VU) and obj.sort == REF and name == "to_tree":
+            return VBound(obj, "to_tree")
+        if isinstance(obj, VU) and obj.sort == TREE and name == "is_in_tree":
+            return VBound(obj, "is_in_tree")
+        return None
+
+    def call_m(m, func, a, kw, nd):
+        from pyvc.values import VBound
+        if isinstance(func, VBound) and isinstance(func.recv, VU):
+            if func.recv.sort == REF and func.name == "to_tree":
+                return TREE.wrap(tree_of(func.recv.term))
+            if func.recv.sort == TREE and func.name == "is_in_tree":
+                return VBool(intree(func.recv.term, REF.coerce(a[0]).term))
+        return NotImplemented
+
+    def isinst_m(m, v, cls):
+        if getattr(cls, "name", "") == "Tree":
+            if isinstance(v, VU) and v.sort == TREE:
+                return z3.BoolVal(True)
+            if isinstance(v, VU) and v.sort == REF:
+                return z3.BoolVal(False)
+        return None
+
+    world.attr_hooks.insert(0, attr_m)
+    world.call_hooks.insert(0, call_m)
+    world.isinstance_hooks.insert(0, isinst_m)
+    world.name_hooks.append(lambda m, n: VCls("Tree") if n == "Tree" else None)
+    world.exc_parents["ValueError"] = "Exception"
+    for variant, ts, T in ((None, "TreeObj", "tree_or_root"), ("root-node", "Ref", "tree_of_root(old(tree_or_root))")):
+        A(Contract(f"{XM_}:ASTXpath.match", variant_of=variant, params={"self": "XPathObj", "tree_or_root": ts, "node": "Ref"}, returns="bool", props=["C07"],
+                   requires=["len(xp_elements_reversed(self)) > 0"],
+                   raises=[("ValueError", f"not t_in_tree({T}, node)")],
+                   ensures=[f"result == MX({T}, node, xp_elements_reversed(self))"],
+                   note="a node outside the tree is a ValueError; otherwise the bottom-up predicate MX over the reversed element list (a root node is wrapped into its Tree first)"))
     lem_legacy = legacy_matcher(world, lib, reg, nv)
+    lem_legacy += transformer_rules(world, lib, reg, nv, EL)
     from pyvc.verify import Lemma
     t_, e_ = z3.Const("t_aa", TREE.z3()), z3.Const("e_aa", SE.z3())
     a_, b_ = z3.Const("a_aa", SR.z3()), z3.Const("b_aa", SR.z3())
@@ -434,3 +479,153 @@ def legacy_matcher(world, lib, reg, nv):
         bank.add(whole, ("snoc", z3.Concat(a_, b_), y_))
         return [ih], lany.t(whole, e_) == z3.Or(lany.t(a_, e_), lany.t(mk_snoc(b_, y_), e_))
     return [Lemma("l_any_anc-concat", [("base", la_base), ("step", la_step)], P)]
+
+
+def transformer_rules(world, lib, reg, nv, EL):
+    """C07 / C20: XPathTransformer.element and .xpath (both modules): from the per-step tuples lark hands over to the element list.
+
+    A step is (field | None, index | None, class | None); a step without class is the empty step between two slashes ('//').
+    element(args): the last str / int / class argument of each kind (an index below 0 means none, no class means ASTNode), (None, None, None) for no
+    arguments at all.  xpath(args) reads the steps from the last to the first and is specified by its continuation:
+      v2:      CONT(ret, [])            = ret
+               CONT(ret, [e] ++ r)      = CONT(ret ++ [El(e, anywhere=False)], r)      if e has a class
+                                        = CONT(mark_last(ret), r)                      otherwise ('//': the step read before it may sit anywhere below)
+      legacy:  CONTL(ret, flag, [])     = ret ++ [SENTINEL] if flag else ret
+               CONTL(ret, flag, [e]++r) = CONTL(ret ++ [El(e, anywhere=flag)], False, r)  if e has a class,   CONTL(ret, True, r) otherwise
+    and the result is CONT([], reversed(args)) resp. CONTL([], False, reversed(args))."""
+    from pyvc.lemmas import snoc_from_cons  # noqa: F401
+    from pyvc.values import VRec
+    CLS = nv.CLS
+    OSTR, OINT, OCLS = opt_of(STR), opt_of(INT), opt_of(CLS)
+    STEP = rec_sort("StepSpec", [("field", OSTR), ("index", OINT), ("cls", OCLS)], tuple_like=True)
+    ARG = usort("XArg")
+    SA, SST, SE = seq_of(ARG), seq_of(STEP), seq_of(EL)
+    a_kind = z3.Function("xarg_kind", ARG.z3(), z3.IntSort())       # 0 class, 1 int, 2 str
+    a_cls = z3.Function("xarg_class", ARG.z3(), CLS.z3())
+    a_int = z3.Function("xarg_int", ARG.z3(), z3.IntSort())
+    a_str = z3.Function("xarg_str", ARG.z3(), z3.StringSort())
+    ASTNODE = world.consts["ASTNode"]
+    last_cls = lib.fn("last_class_arg", [SA], CLS)
+    last_idx = lib.fn("last_index_arg", [SA], OINT)
+    last_fld = lib.fn("last_field_arg", [SA], OSTR)
+    args_wf = lib.fn("xargs_wf", [SA], BOOL)
+    last_cls.rule("last_cls-empty", 0, "empty")(lambda a, p: ASTNODE.term)
+    last_cls.rule("last_cls-snoc", 0, "snoc")(lambda a, p: z3.If(a_kind(p[1]) == 0, a_cls(p[1]), last_cls.t(p[0])))
+    last_idx.rule("last_idx-empty", 0, "empty")(lambda a, p: OINT.none().term)
+    last_idx.rule("last_idx-snoc", 0, "snoc")(lambda a, p: z3.If(a_kind(p[1]) == 1, z3.If(a_int(p[1]) > -1, OINT.some(INT.wrap(a_int(p[1]))).term, OINT.none().term), last_idx.t(p[0])))
+    last_fld.rule("last_fld-empty", 0, "empty")(lambda a, p: OSTR.none().term)
+    last_fld.rule("last_fld-snoc", 0, "snoc")(lambda a, p: z3.If(a_kind(p[1]) == 2, OSTR.some(STR.wrap(a_str(p[1]))).term, last_fld.t(p[0])))
+    args_wf.rule("xargs_wf-empty", 0, "empty")(lambda a, p: z3.BoolVal(True))
+    args_wf.rule("xargs_wf-snoc", 0, "snoc")(lambda a, p: z3.And(args_wf.t(p[0]), a_kind(p[1]) >= 0, a_kind(p[1]) <= 2))
+    args_wf.rule("xargs_wf-prefix", 0, "concat", "lemma", raw=True)(lambda a, p: z3.Implies(args_wf.t(z3.Concat(p[0], p[1])), args_wf.t(p[0])))
+    g = lambda rs, t, f: rs.get(rs.wrap(t).term, f).term
+    mk_el = lambda e, anyw: EL.mk(CLS.wrap(OCLS.val(g(STEP, e, "cls"))), VOpt(g(STEP, e, "field"), OSTR), VOpt(g(STEP, e, "index"), OINT), VBool(anyw)).term
+    marked = lambda x: EL.mk(CLS.wrap(g(EL, x, "ast_class")), VOpt(g(EL, x, "parent_field"), OSTR), VOpt(g(EL, x, "parent_index"), OINT), VBool(z3.BoolVal(True))).term
+    rev = lib.fn("rev_steps", [SST], SST)
+    rev.rule("rev_steps-empty", 0, "empty")(lambda a, p: z3.Empty(SST.z3()))
+    rev.rule("rev_steps-snoc", 0, "snoc")(lambda a, p: mk_cons(p[1], rev.t(p[0])))
+    mark_last = lib.fn("mark_last_anywhere", [SE], SE)
+    mark_last.rule("mark_last-snoc", 0, "snoc")(lambda a, p: mk_snoc(p[0], marked(p[1])))
+    CONT = lib.fn("xpath_cont", [SE, SST], SE)
+    CONT.rule("xpath_cont-empty", 1, "empty")(lambda a, p: a[0])
+    CONT.rule("xpath_cont-cons", 1, "cons")(lambda a, p: z3.If(OCLS.is_none(g(STEP, p[0], "cls")), CONT.t(mark_last.t(a[0]), p[1]), CONT.t(mk_snoc(a[0], mk_el(p[0], z3.BoolVal(False))), p[1])))
+    sf = world.spec_fns
+    sf.update({"last_class_arg": last_cls, "last_index_arg": last_idx, "last_field_arg": last_fld, "xargs_wf": args_wf, "rev_steps": rev, "rev_for_iter": rev,
+               "mark_last_anywhere": mark_last, "xpath_cont": CONT,
+               "first_has_class": lambda s_: VBool(z3.And(z3.Length(s_.term) > 0, z3.Not(OCLS.is_none(g(STEP, s_.term[0], "cls")))))})
+
+    def isinst(m, v, cls):
+        name = getattr(cls, "name", "")
+        if isinstance(v, VU) and v.sort == ARG:
+            if name == "type":
+                return a_kind(v.term) == 0
+            if name == "int":
+                return a_kind(v.term) == 1
+            if name == "str":
+                return a_kind(v.term) == 2
+        return None
+
+    def coerce(m, v, sname):
+        if isinstance(v, VU) and v.sort == ARG:
+            if sname in ("Cls", "Opt[Cls]"):
+                return CLS.wrap(a_cls(v.term)) if sname == "Cls" else OCLS.some(CLS.wrap(a_cls(v.term)))
+            if sname in ("int", "Opt[int]"):
+                return INT.wrap(a_int(v.term)) if sname == "int" else OINT.some(INT.wrap(a_int(v.term)))
+            if sname in ("str", "Opt[str]"):
+                return STR.wrap(a_str(v.term)) if sname == "str" else OSTR.some(STR.wrap(a_str(v.term)))
+        return None
+
+    def order_hook(m, op, a, b):
+        # an int argument compared with an int constant (isinstance(arg, int) was tested before)
+        import ast as _ast
+        if isinstance(a, VU) and a.sort == ARG and isinstance(b, VInt):
+            x = a_int(a.term)
+            return {_ast.Lt: x < b.term, _ast.LtE: x <= b.term, _ast.Gt: x > b.term, _ast.GtE: x >= b.term}[type(op)]
+        return None
+
+    world.order_hooks = [order_hook]
+
+    world.isinstance_hooks.insert(0, isinst)
+    world.coerce_hooks = getattr(world, "coerce_hooks", []) + [coerce]
+    A = reg.add
+    for mod, props in ((XM_, ["C07"]), (LXM, ["C20"])):
+        A(Contract(f"{mod}:XPathTransformer.element", params={"self": "XPathTransformer", "args": "List[XArg]"}, returns="StepSpec", props=props,
+                   requires=["xargs_wf(args)"], locals={"type_": "Cls", "parent_field": "Opt[str]", "parent_index": "Opt[int]"},
+                   ensures=["implies(len(args) == 0, result.field is None and result.index is None and result.cls is None)",
+                            "implies(len(args) > 0, result.field == last_field_arg(args) and result.index == last_index_arg(args) and result.cls == last_class_arg(args))"],
+                   loops={1: Loop(inv=["type_ == last_class_arg(done1)", "parent_index == last_index_arg(done1)", "parent_field == last_field_arg(done1)", "xargs_wf(seq1)"])},
+                   note="no arguments: the empty step of '//'; otherwise the last field name, the last index (none when below 0) and the last class (ASTNode when none is given)"))
+    A(Contract(f"{XM_}:XPathTransformer.xpath", params={"self": "XPathTransformer", "args": "List[StepSpec]"}, returns="List[XEl]", props=["C07"],
+               requires=["first_has_class(rev_steps(args))"],
+               locals={"ret": "List[XEl]", "parent_field": "Opt[str]", "parent_index": "Opt[int]", "ast_class": "Opt[Cls]"},
+               ensures=["result == xpath_cont(empty_els(), rev_steps(args))"],
+               loops={1: Loop(inv=["xpath_cont(ret, elements) == xpath_cont(empty_els(), rev_steps(args))", "len(ret) > 0 or first_has_class(elements)"]),
+                      2: Loop(inv=["implies(ast_class is None, xpath_cont(mark_last_anywhere(ret), elements) == xpath_cont(empty_els(), rev_steps(args)) and len(ret) > 0)",
+                                   "implies(ast_class is not None, xpath_cont(ret + [el_of(parent_field, parent_index, ast_class)], elements) == xpath_cont(empty_els(), rev_steps(args)))"])},
+               note="the steps read from the last to the first; a class-less step ('//') marks the element read before it as 'anywhere'; precondition: the last step has a class (the grammar's `self` rule)"))
+    # legacy: elements are LXEl records (with the AnywhereElement sentinel); the pending 'anywhere' flag travels with the continuation
+    LEL = world.rec_of_class_legacy if hasattr(world, "rec_of_class_legacy") else None
+    from pyvc.values import get_sort as _gs
+    LEL = _gs("LXEl")
+    SLE = seq_of(LEL)
+    mk_lel = lambda e, anyw: LEL.mk(CLS.wrap(OCLS.val(g(STEP, e, "cls"))), VOpt(g(STEP, e, "field"), OSTR), VOpt(g(STEP, e, "index"), OINT), VBool(anyw), VBool(z3.BoolVal(False))).term
+    SENT = LEL.fresh("ANYWHERE_SENTINEL")
+    world.axioms.append(LEL.get(SENT.term, "is_sentinel").term)
+    CONTL = lib.fn("legacy_xpath_cont", [SLE, BOOL, SST], SLE)
+    CONTL.rule("legacy_cont-empty", 2, "empty")(lambda a, p: z3.If(a[1], mk_snoc(a[0], SENT.term), a[0]))
+    CONTL.rule("legacy_cont-cons", 2, "cons")(lambda a, p: z3.If(OCLS.is_none(g(STEP, p[0], "cls")), CONTL.t(a[0], z3.BoolVal(True), p[1]),
+                                                               CONTL.t(mk_snoc(a[0], mk_lel(p[0], a[1])), z3.BoolVal(False), p[1])))
+    sf.update({"legacy_xpath_cont": CONTL, "empty_lels": lambda: SLE.wrap(z3.Empty(SLE.z3())),
+               "lel_of": lambda f, i, c, a: LEL.mk(CLS.coerce(c), OSTR.coerce(f), OINT.coerce(i), a, VBool(z3.BoolVal(False)))})
+
+    def ctor(m, func, a, kw, nd):
+        if m.contract.module == LXM and isinstance(func, VCls) and func.name == "ASTXpathElement":
+            return LEL.mk(CLS.coerce(kw["ast_class"]), OSTR.coerce(kw["parent_field"]), OINT.coerce(kw["parent_index"]), kw["anywhere"], VBool(z3.BoolVal(False)))
+        if m.contract.module == LXM and isinstance(func, VCls) and func.name == "ASTXpathAnywhereElement":
+            return SENT
+        return NotImplemented
+
+    world.call_hooks.insert(0, ctor)
+    world.name_hooks.insert(0, lambda m, n: VCls(n) if m.contract.module == LXM and n in ("ASTXpathElement", "ASTXpathAnywhereElement") else None)
+    A(Contract(f"{LXM}:XPathTransformer.xpath", params={"self": "XPathTransformer", "args": "List[StepSpec]"}, returns="List[LXEl]", props=["C20"],
+               locals={"ret": "List[LXEl]", "parent_field": "Opt[str]", "parent_index": "Opt[int]", "ast_class": "Opt[Cls]", "anywhere": "bool"},
+               ensures=["result == legacy_xpath_cont(empty_lels(), False, rev_steps(args))"],
+               loops={1: Loop(inv=["legacy_xpath_cont(ret, False, elements) == legacy_xpath_cont(empty_lels(), False, rev_steps(args))"]),
+                      2: Loop(inv=["implies(ast_class is None, legacy_xpath_cont(ret, True, elements) == legacy_xpath_cont(empty_lels(), False, rev_steps(args)))",
+                                   "implies(ast_class is not None, legacy_xpath_cont(ret + [lel_of(parent_field, parent_index, ast_class, anywhere)], False, elements) "
+                                   "== legacy_xpath_cont(empty_lels(), False, rev_steps(args)))"])},
+               note="the steps read from the last to the first; class-less steps ('//') make the next element read 'anywhere'; leading ones end the list with the AnywhereElement sentinel"))
+    sf["empty_els"] = lambda: SE.wrap(z3.Empty(SE.z3()))
+    sf["el_of"] = lambda f, i, c: EL.mk(CLS.coerce(c), OSTR.coerce(f), OINT.coerce(i), VBool(z3.BoolVal(False)))
+    from pyvc.verify import Lemma
+    a_, b_, y_ = z3.Const("a_xw", SA.z3()), z3.Const("b_xw", SA.z3()), z3.Const("y_xw", ARG.z3())
+
+    def xw_base(bank):
+        return [], z3.Implies(args_wf.t(z3.Concat(a_, z3.Empty(SA.z3()))), args_wf.t(a_))
+
+    def xw_step(bank):
+        ih = z3.Implies(args_wf.t(z3.Concat(a_, b_)), args_wf.t(a_))
+        whole = z3.Concat(a_, mk_snoc(b_, y_))
+        bank.add(whole, ("snoc", z3.Concat(a_, b_), y_))
+        return [ih], z3.Implies(args_wf.t(whole), args_wf.t(a_))
+    return [Lemma("xargs_wf-prefix", [("base", xw_base), ("step", xw_step)], ["C07", "C20"])]
